@@ -1,6 +1,7 @@
 package core
 
 import (
+	"syscall"
 	"crypto/sha256"
 	"encoding/hex"
 	"fmt"
@@ -157,6 +158,11 @@ func init() {
 						g.points[i] = g.points[i-1] + 1
 					}
 				}
+				if round%2 == 1 {
+					// WriteTo then reads through a second descriptor opened with this flag (tx.go:417-429)
+					tx.WriteFlag = syscall.O_SYNC
+					res.Counters["backups_with_write_flag"]++
+				}
 				written, err = tx.WriteTo(g)
 				f.Close()
 			}
@@ -175,6 +181,50 @@ func init() {
 			}
 			os.Remove(dst)
 			s.Exec(Step{Ev: "End", H: h, How: "rollback"})
+		}
+		// The path of the open database now names ANOTHER file (renamed over it). A backup taken with a write
+		// flag re-opens the path; it must notice that this is not the file of the database (tx.go sameFile)
+		// and still produce the reader's snapshot.
+		if sc.Params["replace"] == 1 {
+			s.AutoObserve = false
+			h := 5
+			s.Exec(Step{Ev: "Begin", H: h, W: false})
+			writerTx()
+			if tx := s.Tx(h); tx != nil {
+				size := tx.Size()
+				other := filepath.Join(dir, "other.db")
+				Uninstall() // the other database is not part of the trace
+				_, berr := BuildFile(other, Opts{PageSize: sc.Opts.PageSize}, s.Prof, sc.Seed+991, GenCfg{Keys: 12, Vals: 5, MaxDepth: 2, Txs: 4, OpsPerTx: 8})
+				s.T.Install()
+				if berr == nil {
+					if fi, e2 := os.Stat(other); e2 == nil && fi.Size() < size+int64(sc.Opts.PageSize) {
+						_ = os.Truncate(other, size+int64(sc.Opts.PageSize))
+					}
+					if os.Rename(other, s.Path) == nil {
+						writerTx()
+						writerTx()
+						dst := filepath.Join(dir, "backup-replaced.db")
+						f, e2 := os.Create(dst)
+						if e2 != nil {
+							panic(e2)
+						}
+						tx.WriteFlag = syscall.O_SYNC
+						written, err := tx.WriteTo(f)
+						f.Close()
+						if s.Tx(h) != nil {
+							e := observeCopy(dst, s.Prof)
+							e["ev"], e["h"], e["size"], e["written"], e["err"], e["commitsDuring"] = "Backup", h, size, written, ErrName(err), 0
+							s.T.Add(e)
+							res.Counters["backups"]++
+							res.Counters["backups_with_path_replaced"]++
+						}
+						os.Remove(dst)
+					}
+				}
+			}
+			if s.Tx(h) != nil {
+				s.Exec(Step{Ev: "End", H: h, How: "rollback"})
+			}
 		}
 		_ = s.CloseAll()
 	})
@@ -202,13 +252,15 @@ func CheckC14(c *Ctx) int {
 		}
 		g := GenCfg{Keys: 10 + (i*7)%30, Vals: 8, MaxDepth: 2 + i%2, OpsPerTx: 4 + i%10}
 		scs = append(scs, Scenario{Name: fmt.Sprintf("c14-%d-%d", c.Seed, i), Kind: "backup", Seed: c.Seed*3301 + int64(i), Opts: o, Profile: prof, Gen: &g,
-			Params: map[string]int{"warm": 2 + i%4, "rounds": 5}})
+			Params: map[string]int{"warm": 2 + i%4, "rounds": 5, "replace": (i + 1) % 2}})
 	}
 	o := RunScenarios(scs, ValidateSpec{KV: true}, filepath.Join(c.WorkDir, "runs"), 14, 4, c.ChildTimeout())
 	c.Absorb(o)
 	c.Cov["evaluations"] = o.Counters["backups"]
+	c.Cov["backups_with_write_flag"] = o.Counters["backups_with_write_flag"]
+	c.Cov["backups_with_path_replaced"] = o.Counters["backups_with_path_replaced"]
 	c.Cov["distinct_nontrivial"] = o.Counters["backups_with_concurrent_commits"]
-	c.Cov["rule"] = "evaluations = backups taken (WriteTo through a gating writer, CopyFile) whose byte count, metas, content dump, Tx.Check and independent accounting TLC compared with the reader's snapshot in TxKV; non-trivial = write transactions committed between the first and the last byte of the copy; distinct by (history, round)"
+	c.Cov["rule"] = "evaluations = backups taken (WriteTo through a gating writer - every second one with Tx.WriteFlag set -, CopyFile, and a final WriteTo with a write flag after the database's path was renamed onto another file) whose byte count, metas, content dump, Tx.Check and independent accounting TLC compared with the reader's snapshot in TxKV; non-trivial = write transactions committed between the first and the last byte of the copy; distinct by (history, round)"
 	return c.Finish(nil)
 }
 
@@ -323,7 +375,9 @@ func CheckC15(c *Ctx) int {
 	var scs []Scenario
 	for i := 0; i < n; i++ {
 		ps := []int{1024, 4096, 4096, 16384}[i%4]
-		o := Opts{PageSize: ps, AllocSize: 65536}
+		// every third source was last written without a persisted free list: opening it read-write would flush
+		// the free list into it, so "the source file is unchanged" also says that the tools open it read-only
+		o := Opts{PageSize: ps, AllocSize: 65536, NoFreelistSync: i%3 == 1}
 		prof := []string{"small", "half", "quarter", "page", "mixed", "tiny"}[i%6]
 		if ps == 16384 {
 			prof = "small"
